@@ -147,7 +147,7 @@ func (*c07Prop) Gen(r *Rand, pl *Plan) Case {
 	case 5, 6:
 		c.G = genGrammar(r, &genOpts{MaxNodes: r.Range(3, size), Alphabet: alphabet, Trims: true, LeftRec: true, MemoChance: r.Range(20, 70)})
 	default:
-		c.G = genGrammar(r, &genOpts{MaxNodes: r.Range(3, size), Alphabet: alphabet, Trims: r.Chance(2, 3), MemoChance: r.Range(30, 80), Names: r.Chance(1, 3), Rich: r.Chance(1, 3)})
+		c.G = genGrammar(r, &genOpts{MaxNodes: r.Range(3, size), Alphabet: alphabet, Trims: r.Chance(2, 3), MemoChance: r.Range(30, 80), Names: r.Chance(1, 3), Rich: r.Chance(1, 3), Guards: r.Chance(1, 6)})
 	}
 	if c.G.analyze().AnyLeft {
 		// left-recursive inputs stay short: ambiguous cyclic grammars blow up quickly
@@ -160,7 +160,7 @@ func (*c07Prop) Gen(r *Rand, pl *Plan) Case {
 	if alphabet == "abcd" && r.Chance(2, 3) {
 		c.Input = []string{"abcd", "abcda", "ab", "abc", "aabcd"}[r.Intn(5)]
 	}
-	if !hasRich(c.G) && r.Chance(1, 6) {
+	if !hasRich(c.G) && !hasOp(c.G, "upanic") && r.Chance(1, 6) {
 		// the same grammar over a non-ASCII alphabet (requests may start inside a rune)
 		to := []string{"é", "世", "\U0001F600"}[r.Intn(3)]
 		c.G.translit('b', to)
@@ -634,7 +634,15 @@ func (r recP) Parse(ctx *parsley.Context, lrc data.IntMap, pos parsley.Pos) (par
 		m.outerMemo++
 	}
 	m.checkAll()
+	depth0, stack0 := m.depth-1, len(m.stack)
 	m.stack = append(m.stack, frame{label: r.label, idx: r.idx})
+	defer func() {
+		if p := recover(); p != nil {
+			// a panic on its way to a guard further up: this invocation is over
+			m.depth, m.stack = depth0, m.stack[:stack0]
+			panic(p)
+		}
+	}()
 	n, cp, err := r.p.Parse(ctx, lrc, pos)
 	if nl, ok := n.(ast.NodeList); ok && len(nl) > 64 {
 		panic(discard{"list-budget"})
@@ -732,7 +740,7 @@ func (m *monitor) wrap(idx int, n *GNode, layer string, p parsley.Parser) parsle
 	switch n.Op {
 	case "seq", "seqtry", "seqfoa", "many", "many1", "sepby", "sepby1", "sentence":
 		fresh = n.Arg != "single"
-	case "rune", "urune", "unode", "unode2", "op", "int", "float", "str", "char", "bool", "nil", "word", "regexp", "dur":
+	case "rune", "urune", "unode", "unode2", "upanic", "op", "int", "float", "str", "char", "bool", "nil", "word", "regexp", "dur":
 		fresh = true // a terminal parser builds its node itself
 	}
 	if layer == "inner" {
@@ -824,6 +832,11 @@ func (*c07Prop) Run(cc Case) (v Verdict) {
 			}
 			if hasRich(c.G) {
 				v.Discard = "literal-parser-panic"
+				v.Violation = false
+				return
+			}
+			if _, ok := r.(userBoom); ok {
+				v.Discard = "user-panic"
 				v.Violation = false
 				return
 			}
